@@ -66,8 +66,7 @@ package certs
 //@   pure
 //@   let now = opts.CurrentTime
 //@   let pres = opts.PresentedIntermediate
-//@   requires !zerotime(opts.CurrentTime)
-//@   ensures err == nil <==> (
+//@   ensures !zerotime(opts.CurrentTime) ==> (err == nil <==> (
 //@       leaf.Type == Leaf &&
 //@       ((isnil(opts.Name.Label) && opts.Name.Type == 0) || nameIn(leaf, opts.Name)) &&
 //@       valid(leaf, now) &&
@@ -76,4 +75,4 @@ package certs
 //@           inter.Type == Intermediate && valid(inter, now) && inter.Fingerprint == leaf.Parent && issued(leaf, inter) &&
 //@           has(s.certs, inter.Parent) &&
 //@           (let root = s.certs[inter.Parent] in
-//@               root.Type == Root && valid(root, now) && root.Fingerprint == inter.Parent && issued(inter, root))))
+//@               root.Type == Root && valid(root, now) && root.Fingerprint == inter.Parent && issued(inter, root)))))
